@@ -1,6 +1,8 @@
 (* Props/C13.v — lazy access: I/O proportional to the request, independent of the amount of
    allocated data and of the file length; correct at multi-terabyte scale. *)
 From Coq Require Import ZArith List Bool.
+Import ListNotations.
+From DH Require Model.Lru Proofs.Lru Proofs.LruCost.
 From DH Require Import Base.Plan Base.Table Model.Walk Model.Io Proofs.Io Proofs.StreamReaders
   Model.Vhd Proofs.Vhd Model.Vdi Proofs.Vdi Model.Vhdx Proofs.Vhdx Model.Hds Proofs.Hds.
 Open Scope Z_scope.
@@ -54,3 +56,17 @@ Theorem C13_vhdx_wide_offsets :
   be_state (state + mb * 2 ^ 20) = state /\ be_mb (state + mb * 2 ^ 20) = mb.
 Proof. exact bat_entry_roundtrip. Qed.
 Print Assumptions C13_vhdx_wide_offsets.
+
+(* amortised table loads: a cache of [cap] tables serving requests whose mapping tables all come from a working set
+   of at most [cap] tables loads each table at most once — in any order, however often they recur (the QCOW2 L2
+   cache, the VMDK grain-table cache, the VHD / VHDX BAT entry caches are instances of Model/Lru.v) *)
+Theorem C13_tables_loaded_once :
+  forall (V : Type) (cap : nat) (load : Z -> V) (W ks : list Z),
+  (length W <= cap)%nat -> incl ks W -> (Proofs.LruCost.lru_misses cap load [] ks <= length W)%nat.
+Proof. intros V cap load W ks. exact (Proofs.LruCost.lru_loads_each_once cap load W ks). Qed.
+Print Assumptions C13_tables_loaded_once.
+
+Example C13_cache_capacity_matters :
+  Proofs.LruCost.lru_misses 4 (fun k => k) [] [1; 2; 3; 1; 2; 3; 1; 2; 3] = 3%nat /\
+  Proofs.LruCost.lru_misses 2 (fun k => k) [] [1; 2; 3; 1; 2; 3; 1; 2; 3] = 9%nat.
+Proof. split; reflexivity. Qed.
